@@ -552,6 +552,45 @@ def run(ctx):
             sess.append(c)
         ctx.tag("session")
         eval_cases(ctx, sess, table, env={})
+    # polling sessions: ONE controller, ONE chip, the SAME (address, length) read again and again while the memory
+    # under it changes and while longer and shorter reads of other ranges come in between (a receive buffer or a
+    # prepared request list that the connection keeps from one read to the next must never show through)
+    for _ in range(ctx.scale(40, 1000) * (4 if ctx.extended else 1)):
+        rng = ctx.rng
+        buf, window = rng.choice(BUFS), rng.choice([1, 2, 8])
+        x, y, p = rng.randrange(2), rng.randrange(2), rng.randrange(18)
+        base = rng.choice([0x60000000, 0x70000000]) + 4 * rng.randrange(1000) + rng.randrange(4)
+        n0 = rng.choice([1, 3, 4, 8, buf - 1, buf, buf + 5, 2 * buf + 1])
+        polled = [(base, n0), (base + rng.randrange(0, n0 + 1), rng.choice([1, 4, n0, n0 + 3]))]
+        sess, longest = [], 0
+        for i in range(rng.randrange(5, 10)):
+            r = rng.random()
+            if i in (0, 1):
+                a, n = polled[i % 2]
+                c = {"op": "read", "addr": a, "len": n}
+            elif r < 0.45:
+                a, n = rng.choice(polled)            # the same read again
+                c = {"op": "read", "addr": a, "len": n}
+            elif r < 0.7:
+                # a read longer than every read so far (the connection has to enlarge whatever it keeps)
+                n = longest + rng.choice([1, 4, buf, 2 * buf + 3])
+                c = {"op": "read", "addr": base - rng.randrange(0, 8), "len": n}
+            else:
+                # the memory under the polled ranges changes
+                a = base + rng.randrange(0, n0 + 1)
+                n = rng.choice([1, 2, 4, n0, buf + 1])
+                c = {"op": rng.choice(["write", "write", "fill"]), "addr": a, "len": n}
+                if c["op"] == "write":
+                    c["data"] = [rng.randrange(256) for _ in range(n)]
+                else:
+                    c["fill"] = rng.randrange(256)
+            if c["op"] == "read":
+                longest = max(longest, c["len"])
+            c.update(buf=buf, window=window, script={}, x=x, y=y, p=p, timeout=4, session_step=i)
+            c["session_history"] = [{k: v for k, v in h.items() if k != "session_history"} for h in sess]
+            sess.append(c)
+        ctx.tag("session-polling")
+        eval_cases(ctx, sess, table, env={})
     # composition with C06 (theorems read_through_burst / write_through_burst in Props/C06): the real
     # SCPConnection.read/write under fault schedules vs the Lean models readThrough / memAfter fed with
     # the recorded environment.  Here a disagreement is verdict-bearing.
